@@ -62,6 +62,11 @@ def check(tier, seed, replay=None):
         for i, c in enumerate(cases):
             if i % 3 == seed % 3 and len(c["rows"]) >= 2:
                 c["rows"][1]["name"] = ""
+            elif i % 5 == seed % 5 and len(c["rows"]) >= 2:
+                # names of the shape the compiler gives the second, third ... row of one label: they are
+                # named rows like any other
+                for k, r in enumerate(c["rows"]):
+                    r["name"] = "cap" if k == 0 else f"cap__{k + 1}"
     for c in cases:
         t = lp_text(c)
         if t:
